@@ -11,6 +11,12 @@ AA = T.AA
 IDX = {a: i for i, a in enumerate(AA)}
 
 
+def seeded_rng(x):
+    """deterministic generator for the choice of validation samples; VERIF_SEED varies the choice (verdicts do not depend on it)"""
+    import os
+    return random.Random("%s/%s" % (x, os.environ.get("VERIF_SEED", "0")))
+
+
 def interp(**kw):
     kw.setdefault("source_roots", ("/repo/",))
     return Interp(**kw)
